@@ -68,6 +68,14 @@ class IdentityTransfer(SpaceTransfer):
         return type(G)(G)
 
 
+class TooExpensive(Exception):
+    """The configuration needs more step attempts than the check wants to pay for (e.g. an adaptive run that keeps
+    restarting with tiny steps): it is skipped, not judged."""
+
+
+MAX_RECS = 6000
+
+
 class Rec(Hooks):
     """Records, per step attempt, what the property compares.  One instance per controller (hence per rank)."""
 
@@ -78,6 +86,8 @@ class Rec(Hooks):
 
     def pre_step(self, step, level_number):
         super().pre_step(step, level_number)
+        if len(self.recs) > MAX_RECS:
+            raise TooExpensive('more than %d records' % MAX_RECS)
         key = id(step)
         self.block[key] = self.block.get(key, -1) + 1
         L = step.levels[0]
@@ -414,6 +424,9 @@ def main():
     for job in doc['jobs']:
         cfg = job['cfg']
         r = {'serial': run_serial(cfg), 'mpi': []}
+        if r['serial'].get('outcome') == 'TooExpensive':
+            results.append(r)
+            continue
         want = set(job.get('want_logs', []))
         first_digest = None
         for i, spec0 in enumerate(job['schedules']):
